@@ -1045,7 +1045,7 @@ COST_MS = {'omega_matrix': 13, 'omega_hol': 190, 'simplex': 7, 'strict': 9, 'bb'
 
 
 def shards(tier):
-    mult = 1 if tier == 'quick' else 20
+    mult = 1 if tier == 'quick' else 8
     per_shard_ms = 15000 if tier == 'quick' else 100000
     out = []
     for ep in EPS:
